@@ -21,7 +21,7 @@
        not, from inside or outside the parent), under the consistency of the history store that every run maintains.
    PARTIAL: (4) is proved per transition (every transition of every run by the C01 run invariant); timer / service
    non-interference for siblings follows from (3) only for what is cancelled. *)
-From XSM Require Import Model.Macro Proofs.PhaseP Proofs.LegalP Proofs.SortP Proofs.StepP Proofs.DescentP Proofs.EffectP Proofs.AccountP Proofs.HistoryP Proofs.IdP Proofs.GeomBridge Proofs.SourceGeomP Model.TreeLib Gen.GenGeom.
+From XSM Require Import Model.Macro Proofs.PhaseP Proofs.LegalP Proofs.SortP Proofs.StepP Proofs.DescentP Proofs.EffectP Proofs.AccountP Proofs.HistoryP Proofs.IdP Proofs.GeomBridge Proofs.SourceGeomP Proofs.SkeletonBridge Model.TreeLib Gen.GenGeom.
 From Coq Require Import Sorting.Sorted.
 
 Theorem C03_phases_and_event_identity : forall eng pr m t tgt ev s0 s1,
@@ -164,6 +164,37 @@ Theorem C03_transition_is_the_source : forall m, ancestry_side_ok m = true -> fo
   exec_external_src eng pr m t tgt ev s0 = exec_external eng pr m t tgt ev s0.
 Proof. exact exec_external_src_eq. Qed.
 Print Assumptions C03_transition_is_the_source.
+
+(* TIE T for the ORDER OF EFFECTS: the effect skeletons of _exit_states and _enter_states are extracted from BOTH engines' copies
+   in the current source on every run (Gen/GenGeom.v; for _enter_states every path through the loop body must agree with one
+   total order of the five effects) and, interpreted over the model's own effect primitives, ARE the model's exit_states and
+   enter_one - so "a state's tasks are cancelled before its exit actions run", "exit actions before the state leaves the
+   configuration", "entry actions before the default descent", "where the state's tasks are scheduled relative to the
+   descent" are read off the source, per engine *)
+Theorem C03_exit_order_is_the_source_async : forall pr m l ev s,
+  run_exit_skeleton GenGeom.exit_skeleton_async Async pr m l ev s = exit_states Async pr m l ev s.
+Proof. exact exit_skeleton_async_bridge. Qed.
+Print Assumptions C03_exit_order_is_the_source_async.
+Theorem C03_exit_order_is_the_source_sync : forall eng pr m l ev s, eng <> Async ->
+  run_exit_skeleton GenGeom.exit_skeleton_sync eng pr m l ev s = exit_states eng pr m l ev s.
+Proof. exact exit_skeleton_sync_bridge. Qed.
+Print Assumptions C03_exit_order_is_the_source_sync.
+Theorem C03_entry_order_is_the_source_async : forall pr m rec l ev x s,
+  run_entry_skeleton GenGeom.entry_skeleton_async Async pr m rec l ev x s
+  = enter_one Async pr m rec (parents_of m l) (with_parent m l) ev x s.
+Proof. exact entry_skeleton_async_bridge. Qed.
+Print Assumptions C03_entry_order_is_the_source_async.
+Theorem C03_entry_order_is_the_source_sync : forall eng pr m rec l ev x s, eng <> Async ->
+  run_entry_skeleton GenGeom.entry_skeleton_sync eng pr m rec l ev x s
+  = enter_one eng pr m rec (parents_of m l) (with_parent m l) ev x s.
+Proof. exact entry_skeleton_sync_bridge. Qed.
+Print Assumptions C03_entry_order_is_the_source_sync.
+Example C03_skeletons_read :
+  GenGeom.exit_skeleton_async = [XRecord; XLoop [XCancel; XActions; XLeave]] /\
+  GenGeom.exit_skeleton_sync = [XRecord; XLoop [XCancel]; XLoop [XActions; XLeave]] /\
+  GenGeom.entry_skeleton_async = [NAdd; NActions; NSchedule; NFinalCheck; NDescend] /\
+  GenGeom.entry_skeleton_sync = [NAdd; NActions; NFinalCheck; NDescend; NSchedule].
+Proof. repeat split; reflexivity. Qed.
 
 (* the machine of former finding F21 (repaired in /repo by the fix that also closes F34, see known_findings.json): parallel
    machine {a (entry 1, exit 2; H -> #m.h; OUT -> reenter a), h: history}.  After OUT has recorded history, H used to
